@@ -82,7 +82,11 @@ pub fn replay(input: &str, output: &str) {
     let mut lines = read_ndjson(input);
     // (the second pass of the check reads the variants in the opposite order: what a file means does not depend on
     //  the files read before it in the same process)
-    if std::env::var("VERIF_ORDER").map(|x| x == "reverse").unwrap_or(false) { lines.reverse(); }
+    if std::env::var("VERIF_ORDER").map(|x| x == "reverse").unwrap_or(false) {
+        lines.reverse();
+        // ... with the files of 5-DOF robots that leave out an array in front
+        lines.sort_by_key(|l| (l["expect_dof"].as_i64().unwrap_or(6), l["nsign"].as_i64().unwrap_or(6).min(l["noff"].as_i64().unwrap_or(6))));
+    }
     let mut out = Out::create(output);
     let mut r = rng(1919);
     let mut evals = 0u64;
